@@ -241,7 +241,13 @@ def dubinin_a(desc):
 
 
 def build_model(desc):
-    mod = pgm.get_isotherm_model(desc["model"], parameters=dict(desc["params"]))
+    # the parameter mapping is keyed by name; it is written in one of four key orders (derived from the values, so that
+    # the case stays a pure function of its descriptor)
+    par = dict(desc["params"])
+    keys = list(par)
+    how = int(sum(abs(float(v)) for v in par.values()) * 1e6) % 4
+    keys = [keys, keys[::-1], sorted(keys), sorted(keys, reverse=True)][how]
+    mod = pgm.get_isotherm_model(desc["model"], parameters={k: par[k] for k in keys})
     if desc["model"] in DUBININ:
         # the fitting path of ModelIsotherm does exactly this (the model-instance path not doing it is not C11's topic)
         mod.__init_parameters__({"temperature": desc["T"]})
